@@ -136,7 +136,7 @@ func crossRound(t evid.TB, s *srv.Server, pl *plan, round int, res *result) (*ve
 			id++
 			p := buildPacket(sp, id)
 			if expB != nil {
-				expB.published(pl.wire(sp.Ch), p.Data, must)
+				expB.published(pl.wire(sp.Ch), append([]byte(nil), p.Data...), must)
 			}
 			st.WriteRtpPacket(p)
 		}
@@ -144,7 +144,7 @@ func crossRound(t evid.TB, s *srv.Server, pl *plan, round int, res *result) (*ve
 
 	// player A over RTSP/TCP
 	plA := &plan{Transport: "tcp", Video: pl.Video, Audio: pl.Audio}
-	a := openWS(t, s, plA, path, newExpectation(), func() []byte { return nil })
+	a := openWS(t, s, plA, path, newExpectation(), func() []byte { return nil }, nil)
 	defer a.close()
 	ha := newHolder(nil)
 	defer ha.letGo()
@@ -174,7 +174,7 @@ func crossRound(t evid.TB, s *srv.Server, pl *plan, round int, res *result) (*ve
 	// (2) player B attaches and receives a burst
 	expB = newExpectation()
 	var sentinel atomic.Value
-	b := openWS(t, s, pl, path, expB, func() []byte { v, _ := sentinel.Load().([]byte); return v })
+	b := openWS(t, s, pl, path, expB, func() []byte { v, _ := sentinel.Load().([]byte); return v }, nil)
 	defer b.close()
 	var hb *holder
 	if pl.Transport == "tcp" && cx.HoldB {
@@ -204,8 +204,9 @@ func crossRound(t evid.TB, s *srv.Server, pl *plan, round int, res *result) (*ve
 	publish(cx.After, true)
 	sp := pktSpec{Ch: rtp.ChannelVideo, Size: 40, Fill: "ramp"}
 	sent := buildPacket(sp, 0x00ffff00)
-	sentinel.Store(sent.Data)
-	expB.published(pl.wire(0), sent.Data, true)
+	sentBytes := append([]byte(nil), sent.Data...)
+	sentinel.Store(sentBytes)
+	expB.published(pl.wire(0), sentBytes, true)
 	st.WriteRtpPacket(sent)
 	complete := false
 	deadline := time.Now().Add(bound(pl.Transport))
